@@ -92,6 +92,26 @@ def run(ctx: Ctx, rs: RuleSet, tier: str):
         if isinstance(s, ast.Call) and unparse(s.func) == 'setattr' and unparse(
             s.args[0]) == unparse(n.target):
           ok = True
+        elif isinstance(s, ast.Call) and s.args and unparse(
+            s.args[0]) == unparse(n.target) and any(
+                k.arg is None for k in s.keywords):
+          # handed on, with the keyword arguments, to a function of the tree
+          # that assigns each of them on its first parameter
+          h = ctx.p.funcs.get(ctx.p.resolve(s.func, st) or '')
+          if h is not None and not h.is_lambda and h.params and (
+              h.node.args.kwarg is not None):
+            kwn = h.node.args.kwarg.arg
+            for lp in walk_function(h.node):
+              if isinstance(lp, ast.For) and unparse(
+                  lp.iter) == f'{kwn}.items()' and isinstance(
+                      lp.target, ast.Tuple) and len(lp.target.elts) == 2:
+                for s2 in walk_stmts(lp.body):
+                  if isinstance(s2, ast.Call) and unparse(
+                      s2.func) == 'setattr' and [
+                          unparse(a) for a in s2.args] == [
+                              h.params[0]] + [unparse(e) for e in
+                                              lp.target.elts]:
+                    ok = True
   rs.check(ok, rule, st.qualname,
            'set(**kw) assigns on each yielded (matching) node',
            ctx.loc(st, st.node))
@@ -138,35 +158,59 @@ def run(ctx: Ctx, rs: RuleSet, tier: str):
   rs.check(ok, rule, f'{m.qualname}:buildable_type',
            'values that are not instances of buildable_type never match',
            ctx.loc(m, m.node))
+  def ex(e):
+    # named intermediate results read as the expressions they name
+    return roles.deref_deep(m, e)
+
   subs = [c for c in walk_function(m.node) if isinstance(c, ast.Call) and
           unparse(c.func) == 'issubclass' and len(c.args) == 2]
   ok = bool(subs) and all(
-      mentions(c.args[0], node) and not mentions(c.args[0], 'fn_or_cls') and
-      mentions(c.args[1], 'fn_or_cls') and not mentions(c.args[1], node)
-      for c in subs)
+      mentions(ex(c.args[0]), node) and
+      not mentions(ex(c.args[0]), 'fn_or_cls') and
+      mentions(ex(c.args[1]), 'fn_or_cls') and
+      not mentions(ex(c.args[1]), node) for c in subs)
   rs.check(ok, rule, f'{m.qualname}:subclass-direction',
            'issubclass(<callable of the node>, <selected callable>): ' +
            ', '.join(unparse(c) for c in subs), ctx.loc(m, m.node))
-  gated = bool(subs)
-  for c in subs:
-    in_and = False
-    for b in walk_function(m.node):
-      if isinstance(b, ast.BoolOp) and isinstance(b.op, ast.And) and any(
-          sub is c for sub in ast.walk(b)):
-        if any(mentions(v, 'match_subclasses') and not any(
-            sub is c for sub in ast.walk(v)) for v in b.values):
-          in_and = True
-      if isinstance(b, ast.If) and mentions(b.test, 'match_subclasses') and any(
-          sub is c for sub in ast.walk(ast.Module(body=b.body,
-                                                  type_ignores=[]))):
-        in_and = True
-    gated = gated and in_and
+  eq = [c for c in walk_function(m.node) if isinstance(c, ast.Compare) and
+        isinstance(c.ops[0], (ast.Eq, ast.NotEq, ast.Is, ast.IsNot)) and
+        mentions(ex(c), 'fn_or_cls', node)]
+  # the subclass relation only counts when match_subclasses is set: a node
+  # whose callable differs from the selected one never matches without it
+  from fdlstatic import dispatch as _dp
+
+  def _differs_unset(t, depth=0):
+    if any(t is c for c in eq):
+      return isinstance(t.ops[0], (ast.NotEq, ast.IsNot))
+    if isinstance(t, ast.Compare) and len(t.ops) == 1 and mentions(
+        ex(t.left), 'fn_or_cls') and isinstance(
+            t.comparators[0], ast.Constant) and t.comparators[0].value is None:
+      return isinstance(t.ops[0], ast.IsNot)   # a callable is selected
+    if isinstance(t, ast.Attribute) and t.attr == 'match_subclasses':
+      return False
+    if isinstance(t, ast.Call) and unparse(t.func) == 'isinstance' and len(
+        t.args) == 2 and unparse(t.args[0]) == node and mentions(
+            t.args[1], 'buildable_type'):
+      return True
+    if isinstance(t, ast.Name) and depth < 3:
+      d = roles.deref(m, t, 1)
+      if d is not t:
+        return _dp.eval_atoms(d, lambda x: _differs_unset(x, depth + 1))
+    return None
+
+  gated = bool(subs) and bool(eq)
+  reached = _dp.reach_atoms(g, _differs_unset)
+  for x in reached:
+    stx = g.stmt[x]
+    if isinstance(stx, ast.Return) and stx.value is not None:
+      v = stx.value
+      val = False if (isinstance(v, ast.Constant) and v.value is False) else (
+          _dp.eval_atoms(v, _differs_unset))
+      if val is not False:
+        gated = False
   rs.check(gated, rule, f'{m.qualname}:subclass-gated',
            'the subclass relation counts only when match_subclasses is set',
            ctx.loc(m, m.node))
-  eq = [c for c in walk_function(m.node) if isinstance(c, ast.Compare) and
-        isinstance(c.ops[0], (ast.Eq, ast.NotEq, ast.Is, ast.IsNot)) and
-        mentions(c, 'fn_or_cls', node)]
   by_identity = [c for c in eq if isinstance(c.ops[0], (ast.Is, ast.IsNot))]
   rs.check(bool(eq) and not by_identity, rule, f'{m.qualname}:equality',
            'the selected callable is compared with the node\'s callable by '
@@ -194,9 +238,17 @@ def run(ctx: Ctx, rs: RuleSet, tier: str):
         n.value is not None]
   if not ys:
     raise AnalysisError('TagSelection.__iter__ yields nothing')
-  def arms(v):
+  def arms(v, depth=0):
     if isinstance(v, ast.IfExp):
-      return arms(v.body) + arms(v.orelse)
+      return arms(v.body, depth) + arms(v.orelse, depth)
+    if isinstance(v, ast.Name) and depth < 3:
+      # a local assigned on every path to the yield: one arm per assignment
+      ds = roles.defs_of(ti, v.id)
+      stores = [n for n in walk_function(ti.node) if isinstance(
+          n, ast.Name) and n.id == v.id and isinstance(
+              n.ctx, (ast.Store, ast.Del))]
+      if ds and len(ds) == len(stores) and v.id not in ti.params:
+        return [a for d in ds for a in arms(d, depth + 1)]
     return [v]
 
   def arm_kind(v):
